@@ -4,8 +4,8 @@ from . import c02
 ID = "C01"
 LEVEL = "proof"
 RULE = ("structured transactions (0..40 inputs/outputs with scripts from the C02 grammar, coinbase inputs, full-range "
-        "version/vout/sequence/value/locktime), uniform runs giving 252/253/254/300 (thorough: 65535/65536/65537) inputs or outputs, "
-        "script lengths 0/1/75/76/252/253/254/255/256/65535/65536/65537 in inputs and outputs, every compact size also in its "
+        "version/vout/sequence/value/locktime), uniform runs giving 252/253/254/300 (thorough: also 255/256/1000/4000) inputs or outputs, "
+        "script lengths 0/1/75/76/252/253/254/255/256/1000/65535/65536 (thorough: 65537, 100000) in inputs and outputs, every compact size also in its "
         "non-minimal 3/5/9-byte forms, trailing bytes, every field-boundary truncation and random truncations, byte flips, "
         "counts and lengths replaced by extremes up to 2^64-1, output totals on both sides of 2^64, the same field lists "
         "through the construction API (tx.build), TxIn/TxOut::from_hex on the pieces, TxIn::from_outpoint_bytes, and the "
@@ -261,7 +261,9 @@ def generate(rng, tier):
 
     # ---------------------------------------------------------------- counts across the compact-size boundaries (uniform runs)
     # an all-zero input is 41 zero bytes (id 0, vout 0, empty script, sequence 0); an all-zero output is 9 zero bytes
-    counts = [252, 253, 254, 300] + ([255, 256, 1000, 65535, 65536, 65537] if thorough else [])
+    # (the Gallina readers re-measure the remaining input on every field read, so the model is quadratic in the
+    # item count: 65 536 items do not finish; the 5-byte compact-size class is reached through script lengths instead)
+    counts = [252, 253, 254, 300] + ([255, 256, 1000, 4000] if thorough else [])
     for n in counts:
         P(join(["02000000" + cs(n), "r:00:%d" % (41 * n), "00" + "00000000"]))
         P(join(["02000000" + "00" + cs(n), "r:00:%d" % (9 * n), "00000000"]))
